@@ -34,6 +34,7 @@ func init() {
 		c14PruneFilter(c)
 		c14Tail(c)
 		c14FreshWALNumber(c)
+		c14CleanupAndSeq(c)
 	})
 }
 
@@ -469,5 +470,53 @@ func c14FreshWALNumber(c *Ctx) {
 			}
 		})
 		c.check(cr != nil && strings.HasSuffix(term(cr.Args()[len(cr.Args())-2]), "nextWALNum") || adv, "fresh-wal-number", "ensureWriter", p.Pos(fnPos(ew)), "creates the file numbered nextWALNum and advances the number", "ensureWriter no longer creates the file at nextWALNum / advances it")
+	}
+}
+
+// c14CleanupAndSeq: (min-over-all-refs) the smallest WAL file number still needed is taken over every referenced file of
+// every live height (future-height messages are logged ahead of time, so "first file of the next height" is not enough);
+// (seq-per-record) every record of a committed batch — prune markers included — consumes a batch sequence number: Pebble's
+// WAL reader drops a record whose number does not exceed the last one seen, so a batch that reuses a number is lost on reopen.
+func c14CleanupAndSeq(c *Ctx) {
+	p := c.P
+	if f := wsFunc(p, "tendermintWALStore", "cleanupObsoleteWALs"); f != nil {
+		usesRefs, ranges := false, false
+		for _, g := range withAnons(f) {
+			allInstrs(g, func(in ssa.Instruction) {
+				if fa, ok := in.(*ssa.FieldAddr); ok && fieldName(fa.X.Type(), fa.Field) == "walHeightRefs" {
+					usesRefs = true
+				}
+				if _, ok := in.(*ssa.Range); ok {
+					ranges = true
+				}
+			})
+		}
+		obs := findSite(f, "obsolete")
+		c.check(usesRefs && ranges && obs != nil, "min-over-all-refs", "cleanupObsoleteWALs", p.Pos(fnPos(f)), "the lower bound handed to obsolete() is minimised over all of walHeightRefs", "cleanupObsoleteWALs no longer walks every referenced WAL file (walHeightRefs) when computing the oldest file still needed: files holding flushed entries of a height that is not the next one (messages logged ahead of their height) are deleted")
+	} else {
+		c.und("min-over-all-refs", "cleanupObsoleteWALs", "", "anchor not found")
+	}
+	if f := wsFunc(p, "tendermintWALStore", "flushLocked"); f != nil {
+		n := 0
+		allInstrs(f, func(in ssa.Instruction) {
+			st, ok := in.(*ssa.Store)
+			if !ok {
+				return
+			}
+			fa, ok := st.Addr.(*ssa.FieldAddr)
+			if !ok || fieldName(fa.X.Type(), fa.Field) != "nextBatchSeqNum" {
+				return
+			}
+			n++
+			t := term(st.Val)
+			b, isB := st.Val.(*ssa.BinOp)
+			ok2 := isB && b.Op == token.ADD && strings.HasSuffix(term(b.X), "nextBatchSeqNum") && !strings.Contains(term(b.Y), " - ") && strings.Contains(termF(b.Y), "len(")
+			c.check(ok2, "seq-per-record", "flushLocked: nextBatchSeqNum", p.Pos(posOf(in, f)), "advanced by the number of records of the batch", "the batch sequence number advances by "+t+" instead of by the number of records written: a later batch reuses a sequence number and Pebble's WAL reader silently drops it on reopen")
+		})
+		if n == 0 {
+			c.und("seq-per-record", "flushLocked", p.Pos(fnPos(f)), "store to nextBatchSeqNum not found")
+		}
+	} else {
+		c.und("seq-per-record", "flushLocked", "", "anchor not found")
 	}
 }
